@@ -275,3 +275,116 @@ def legacy_backend_probe(ctx, res, props, runs):
                 res.fail("failure-not-surfaced", case, dict(got=box.get("out")))
             elif not (isinstance(box["exc"], ValueError) and box["exc"].args == (failing,)):
                 res.fail("wrong-exception:" + type(box["exc"]).__name__, case, repr(box["exc"]))
+
+
+BASE_EXC_KINDS = ("ValueError", "KeyboardInterrupt", "SystemExit", "Stop")
+
+
+def exception_kind_probe(ctx, res, props, runs, cases=None):
+    """C04 "an exception of the same type and arguments as one raised by its tasks", for task exceptions that are NOT
+    `Exception` subclasses (SystemExit, KeyboardInterrupt, an application BaseException) on the real pool backends, with a
+    finite timeout so that a worker that dies with the exception shows up as a wrong exception rather than a hang."""
+    if "C04" not in props:
+        return
+    joblib = core.use_repo()
+    from . import native_tasks as T
+    rng = ctx.rng("native-exc-kinds")
+    combos = [(b, k) for b in ("threading", "multiprocessing", "loky") for k in BASE_EXC_KINDS]
+    rng.shuffle(combos)
+    import os
+    saved_err = os.dup(2)
+    devnull = os.open(os.devnull, os.O_WRONLY)
+    os.dup2(devnull, 2)
+    try:
+        for r in range(runs if cases is None else len(cases)):
+            backend, kind = combos[r % len(combos)]
+            n = rng.choice([3, 5])
+            bad = rng.randrange(n)
+            if cases is not None:
+                c = cases[r]
+                backend, kind, n, bad = c["backend"], c["exception"], c["n"], c["failing"]
+            case = dict(kind="native-exc-kind", backend=backend, exception=kind, n=n, failing=bad)
+            box = {}
+
+            def body():
+                try:
+                    box["out"] = ("returned", joblib.Parallel(n_jobs=2, backend=backend, timeout=20)(
+                        joblib.delayed(T.bad_kind)(i, kind if i == bad else "") for i in range(n)))
+                except BaseException as e:  # noqa: BLE001
+                    box["out"] = ("raised", type(e).__name__, e.args[:1])
+
+            t = threading.Thread(target=body, daemon=True)
+            t.start()
+            t.join(90)
+            res.evaluations += 1
+            res.count("native-exception-kind-runs")
+            res.nontrivial.add(("native-exc-kind", backend, kind, n, bad))
+            if t.is_alive():
+                res.fail("call-never-returns", case, "did not finish within 90 s")
+                continue
+            out = box.get("out")
+            if not out or out[0] != "raised":
+                res.fail("failure-not-surfaced", case, dict(out=out))
+            elif out[1:] != (kind, (bad,)):
+                res.fail("wrong-exception:" + out[1], case, dict(out=out, want=(kind, bad)))
+    finally:
+        os.dup2(saved_err, 2)
+        os.close(saved_err)
+        os.close(devnull)
+
+
+def stuck_sibling_probe(ctx, res, props, runs):
+    """C04 "afterwards the same Parallel object - inside or outside a with block - can be called again and returns exactly
+    the results of the new tasks": real `threading` backend, the failed call leaves tasks that never complete (they block on
+    an event released only at the end of the case); the next call on the same object must return its own results."""
+    if "C04" not in props:
+        return
+    joblib = core.use_repo()
+    rng = ctx.rng("native-stuck")
+    for r in range(runs):
+        managed = r % 3 != 1
+        nj = rng.choice([2, 3])
+        n = rng.choice([nj + 1, 2 * nj, 2 * nj + 2])
+        pd = "all" if r == 0 else rng.choice(["2*n_jobs", "all", nj])
+        case = dict(kind="native-stuck-sibling", n_jobs=nj, n=n, pre_dispatch=pd, managed=managed)
+        gate = threading.Event()
+        box = {}
+
+        def first(i):
+            if i == 0:
+                raise ValueError(0)
+            gate.wait(60)
+            return -1
+
+        def body():
+            p = joblib.Parallel(n_jobs=nj, backend="threading", pre_dispatch=pd, batch_size=1, timeout=15)
+            if managed:
+                p.__enter__()
+            try:
+                try:
+                    box["first"] = ("returned", p(joblib.delayed(first)(i) for i in range(n)))
+                except BaseException as e:  # noqa: BLE001
+                    box["first"] = ("raised", type(e).__name__, e.args[:1])
+                try:
+                    box["second"] = ("returned", p(joblib.delayed(lambda k: k * 3)(i) for i in range(6)))
+                except BaseException as e:  # noqa: BLE001
+                    box["second"] = ("raised", type(e).__name__, e.args[:1])
+            finally:
+                gate.set()
+                if managed:
+                    p.__exit__(None, None, None)
+
+        t = threading.Thread(target=body, daemon=True)
+        t.start()
+        t.join(80)
+        gate.set()
+        res.evaluations += 1
+        res.count("native-stuck-sibling-runs")
+        res.nontrivial.add(("native-stuck", nj, n, str(pd), managed))
+        if t.is_alive():
+            res.fail("call-never-returns", case, dict(box=box))
+            continue
+        if box.get("first") != ("raised", "ValueError", (0,)):
+            res.fail("wrong-exception:" + str((box.get("first") or ("?", "?"))[1]), case, dict(first=box.get("first")))
+        if box.get("second") != ("returned", [0, 3, 6, 9, 12, 15]):
+            res.fail("not-reusable-after-failure", case, dict(second=box.get("second")))
